@@ -1,7 +1,7 @@
 --------------------------------- MODULE EC ---------------------------------
 (* Reed-Solomon erasure code over GF(2^8): encode = matrix product, incremental  *)
 (* update, generator matrices as documented in erasure_code.h.                   *)
-EXTENDS GF256
+EXTENDS GF256, FiniteSets, FiniteSetsExt
 
 (* coef: rows x k matrix (sequence of rows); src: k sequences of N bytes.        *)
 (* Encode(coef, src)[r][i] = XOR_j coef[r][j] * src[j][i]                        *)
@@ -26,6 +26,12 @@ RsMatrix(m, k) == [i \in 1..m |-> [j \in 1..k |->
       IF i <= k THEN (IF i = j THEN 1 ELSE 0) ELSE GPow(Pow2k(i - 1 - k), j - 1)]]
 Cauchy1(m, k) == [i \in 1..m |-> [j \in 1..k |->
       IF i <= k THEN (IF i = j THEN 1 ELSE 0) ELSE Inv((i - 1) ^^ (j - 1))]]
+
+(* the (m,k) pairs erasure_code.h documents as safe for the Vandermonde-style generator *)
+RsSafe(m, k) == \/ k <= 3 \/ (k = 4 /\ m <= 25) \/ (k = 5 /\ m <= 10) \/ (k <= 21 /\ m - k = 4) \/ m - k <= 3
+(* "any k surviving fragments recover the data": the k x k matrix of the surviving rows is invertible *)
+RowsOf(M, S) == LET sq == SetToSeq(S) IN [i \in 1..Len(sq) |-> M[sq[i]]]
+AnyKRecover(M, m, k) == \A S \in kSubset(k, 1..m) : NonSingular(RowsOf(M, S))
 
 (* lemmas, checkable by TLC on small sizes *)
 UpdateAllEqualsEncode(coef, src, order) ==
